@@ -259,7 +259,10 @@ pub fn one_run(rng: &mut Rng, large: bool, layout: u64) -> Vec<Value> {
             ev.push(json!({"e": "Annotate", "k": kind.name(), "x": x, "t": t, "ok": r.is_ok()}));
         }
     }
-    let ont = match catch(|| b.calculate_information_content().map(|x| x.build_minimal())) {
+    // with the two standard roots present the ontology is built with the documented default
+    // categories / modifiers (matters for the record filter of sub_ontology)
+    let defaults = !large && ids.contains(&1) && ids.contains(&118);
+    let ont = match catch(|| b.calculate_information_content().map(|x| if defaults { x.build_with_defaults().unwrap() } else { x.build_minimal() })) {
         Ok(Ok(o)) => o,
         Ok(Err(e)) => {
             ev.push(json!({"e": "BuildFailed", "why": e.to_string()}));
@@ -329,7 +332,7 @@ pub fn one_run(rng: &mut Rng, large: bool, layout: u64) -> Vec<Value> {
         });
         match res {
             Ok(Ok(sub)) => match proj_json(&sub) {
-                Ok(p) => ev.push(json!({"e": "SubOntology", "root": root, "leaves": leaves, "proj": p})),
+                Ok(p) => ev.push(json!({"e": "SubOntology", "root": root, "leaves": leaves, "defaults": defaults, "proj": p})),
                 Err(p) => ev.push(json!({"e": "SubOntologyPanicked", "root": root, "leaves": leaves, "why": p})),
             },
             Ok(Err(e)) => ev.push(json!({"e": "SubOntologyErr", "root": root, "leaves": leaves, "why": e.to_string()})),
